@@ -17,6 +17,10 @@ impl<'a> Paseto<'a, V2, Public> {
         let verifying_key: VerifyingKey = VerifyingKey::from_bytes(<&[u8; 32]>::try_from(public_key.as_ref())?)?;
 
         // let public_key = PublicKey::from_bytes(public_key.as_ref()).map_err(|_| PasetoError::InvalidSignature)?;
+        //the payload must at least hold the signature
+        if decoded_payload.len() < ed25519_dalek::SIGNATURE_LENGTH {
+            return Err(PasetoError::IncorrectSize);
+        }
         let msg = decoded_payload[..(decoded_payload.len() - ed25519_dalek::SIGNATURE_LENGTH)].as_ref();
         let sig = decoded_payload[msg.len()..msg.len() + ed25519_dalek::SIGNATURE_LENGTH].as_ref();
 
